@@ -21,7 +21,7 @@ var lastPanic string
 // Plan calls that did not return keep spinning in their goroutine; after gaveUpLimit of them per strategy the
 // harness stops calling that strategy (the failures are already recorded)
 var gaveUp = map[string]int{}
-var gaveUpLimit = 3
+var gaveUpLimit = 5
 
 // callPlan runs the real strategy in a goroutine guarded by a timeout.
 // status: ok | err | diverges | panic
@@ -61,6 +61,8 @@ func callPlan(strat string, g *Group) (sarama.BalanceStrategyPlan, string) {
 	to := planTimeout
 	if strat == "rr" {
 		to = rrTimeout
+	} else if size := g.size(); size <= 400 && planTimeout > 2*time.Second {
+		to = 2 * time.Second // small inputs plan in well under a millisecond
 	}
 	select {
 	case r := <-ch:
@@ -69,6 +71,15 @@ func callPlan(strat string, g *Group) (sarama.BalanceStrategyPlan, string) {
 		gaveUp[strat]++
 		return nil, "diverges"
 	}
+}
+
+// size: members x partitions, a rough measure of the work of one Plan call
+func (g *Group) size() int {
+	n := 0
+	for _, t := range g.Topics {
+		n += len(t.Parts)
+	}
+	return n * (len(g.Members) + 1)
 }
 
 // ---- range boundaries observed from the real coreFn
@@ -349,7 +360,7 @@ func doPlan(strat, kind string, g *Group) (Asg, map[string]string) {
 		} else if st == "err" && !expectErr && PROP == "C08" {
 			run.IOFail(strat+"-unexpected-error", op, "Plan returned an error")
 		} else if st == "diverges" && strat != "rr" && PROP == "C08" {
-			run.IOFail(strat+"-no-return", op, "Plan did not return within "+planTimeout.String())
+			run.IOFail(strat+"-no-return", op, "Plan did not return within the time limit ("+planTimeout.String()+", 2s for small inputs)")
 		}
 		return nil, nil
 	}
